@@ -8,6 +8,11 @@ which the driver evaluates on the REAL `lalr.Tables` of every sampled grammar.
 Whenever `certOk g t cert = true`, every run of the runtime model on tables `t` that ends in
 `accept` has consumed a prefix of the token string that is a sentence of the chosen input symbol
 (`CFG.Sentence`), and for an input with the end-of-input requirement the whole string.
+
+Completeness (second half of the file): whenever `complOk g t cc = true` (Model/LRComplete.lean,
+LR(1)-style item certificate, also evaluated on the real tables), every sentence is accepted
+(`C01_lr_complete`, `C01_lr_complete_prefix`); with both certificates the accepted token strings
+are exactly the language (`C01_lr_exact`).
 -/
 namespace TmVerif.LRSound
 open TmVerif.LR TmVerif.CFG
@@ -59,7 +64,8 @@ private def exG : Grammar :=
   { nTerms := 5, nSyms := 6, rules := #[⟨5, [4, 3, 4], 0⟩], inputs := #[⟨5, true⟩] }
 private def exT : Tables :=
   { nTerms := 5, action := #[-1,-1,-1,0,-1,-2], lalr := #[], goto_ := #[0,2,2,2,4,8,10], fromTo := #[4,5,1,2,0,1,2,3,0,4], ruleLen := #[3], ruleSymbol := #[5], finalStates := #[5] }
-private def exCert : Cert := { past := #[[], [4], [3, 4], [4, 3, 4], [5], [0, 5]] }
+private def exCert : Cert :=
+  { past := #[[], [4], [3, 4], [4, 3, 4], [5], [0, 5]], reach := #[[0, 1, 2, 3, 4, 5]] }
 private def exInp : Input := { toks := #[⟨4, 0, 1⟩, ⟨3, 1, 2⟩, ⟨4, 2, 3⟩], endOff := 3 }
 
 example : certOk exG exT exCert = true ∧
